@@ -24,44 +24,62 @@ TRUSTED = ["rustc nightly front end", "driver/src/main.rs", "sa/e1.py", "sa/e4.p
 OUTER_OK = (["par_chunks", "flat_map", "collect"], ["chunks", "flat_map", "collect"], ["par_chunks", "zip", "flat_map", "collect"], ["chunks", "zip", "flat_map", "collect"])
 
 
-def r1(ctx):
+def predict_rule(ctx, rule, inst):
+    from .. import e6
     c = ctx.crate
     fn = ctx.fn("network::Network::predict")
-    ih = pat_binds(fn["params"][1])[0][1]
-    cs = [cal for _, cal in calls(fn["body"])]
-    conds = [x for x in walk(fn["body"]) if x.get("k") in ("if", "match", "for", "loop", "ret")]
-    fw = [x for x in walk(fn["body"]) if x.get("k") == "mcall" and x["callee"] == "network::Network::forward"]
-    t = pretty(fn["body"])
-    ok = (len(fw) == 1 and e4.local_hid(fw[0]["args"][0]) == ih and not conds and "let (_, outputs, _, _) = self.forward(input)" in t
-          and "outputs.last().unwrap().clone()" in t and all(cal.startswith(("network::Network::forward", "std::", "core::", "<")) or cal.endswith("::clone") for cal in cs))
-    ctx.check("R12.1", "predict-is-forward-last", ok, "predict-body:" + short(t, 100), c.loc(fn), "predict = forward(input).1.last().clone(), unconditionally",
-              "predict is `%s`; it must be the final activation of forward() on every path (a shortcut that bypasses forward drops skip/loop connections)" % short(t, 200))
+    E = e6.Exec(c, fn)
+    paths = [p for p in E.run_fn() if p.exit is None or p.exit[0] == "return"]
+    inp = ("p", pat_binds(fn["params"][1])[0][0])
+    ok = len(paths) == 1 and not paths[0].pc
+    got = "?"
+    if ok:
+        val = paths[0].val if paths[0].exit is None else paths[0].exit[1]
+        got = e6.show(val, 2)
+        a = e6.is_call(val, "unwrap", 1) or e6.is_call(val, "expect")
+        b = (e6.is_call(a[0], "last", 1) or e6.is_call(a[0], "pop", 1)) if a else None
+        src = b[0] if b else None
+        ok = src == e6.mk_proj(("call", "network::Network::forward", (("p", "self"), inp)), 1)
+        # nothing else happens to the forward result (no other evaluation path, no mutation besides taking the last element)
+        others = [e for e in paths[0].eff if not (e[0] == "mut" and e[1].endswith("::pop"))]
+        ok = ok and not others
+    ctx.check(rule, inst, ok, "predict-body:" + short(got, 100), c.loc(fn), "predict = forward(input).1.last(), unconditionally",
+              "predict evaluates to `%s`; it must be the final activation of forward() on every path (a shortcut that bypasses forward drops skip/loop connections)" % short(got, 200))
+
+
+def r1(ctx):
+    """predict / predict_batch, decided on E6 summaries (independent of clone-vs-pop, map/collect-vs-push-loop, names)"""
+    from .. import e6
+    c = ctx.crate
+    predict_rule(ctx, "R12.1", "predict-is-forward-last")
     fn = ctx.fn("network::Network::predict_batch")
     ph = pat_binds(fn["params"][1])[0][1]
     b = strip(fn["body"])
     while b.get("k") == "blk" and not b["b"]["stmts"]:
         b = strip(b["b"]["tail"])
+    from ..hir import resolve, let_table
+    b = resolve(b, let_table(fn["body"]))
     names, base = chain_of(b)
     ok = names in OUTER_OK[:2] and e4.local_hid(base) == ph
     ctx.check("R12.1", "predict_batch-outer-chain", ok, "predict_batch-chain:" + ".".join(names), c.loc(fn), "inputs.%s" % ".".join(names),
               "predict_batch is built from `%s`; only order-preserving, tail-keeping combinators return exactly predict of each input in input order" % ".".join(names))
-    cl = [x for x in walk(b) if x.get("k") == "closure"]
+    E2_ = e6.Exec(c, fn)
+    ps = [p for p in E2_.run_fn() if p.exit is None or p.exit[0] == "return"]
     ok = False
-    if cl:
-        outer = cl[0]
-        bh = pat_binds(outer["params"][0])[0][1]
-        ib = strip(outer["body"])
-        while ib.get("k") == "blk" and not ib["b"]["stmts"]:
-            ib = strip(ib["b"]["tail"])
-        n2, b2 = chain_of(ib)
-        inner = [x for x in walk(ib) if x.get("k") == "closure"]
-        if n2 == ["iter", "map", "collect"] and e4.local_hid(b2) == bh and len(inner) == 1:
-            ph2 = pat_binds(inner[0]["params"][0])[0][1]
-            body = strip(inner[0]["body"])
-            while body.get("k") == "blk" and not body["b"]["stmts"]:
-                body = strip(body["b"]["tail"])
-            ok = body.get("k") == "mcall" and body["callee"] == "network::Network::predict" and e4.local_hid(body["args"][0]) == ph2
-    ctx.check("R12.1", "predict_batch-per-input", ok, "predict_batch-inner", c.loc(fn), "batch.iter().map(|input| self.predict(input)).collect()")
+    if len(ps) == 1:
+        val = ps[0].val if ps[0].exit is None else ps[0].exit[1]
+        a = e6.is_call(val, "collect", 1)
+        fm = e6.is_call(a[0], "flat_map", 2) if a else None
+        if fm and isinstance(fm[1], tuple) and fm[1][0] == "closure":
+            S = E2_.loop_summaries.get("cl%s" % fm[1][1])
+            live = [p for p in S["paths"] if p.exit is None] if S else []
+            if S and len(live) == 1 and len(S["paths"]) == 1 and not live[0].pc:
+                chunk = ("elem", fm[0], "cl%s" % fm[1][1])
+                es = e6.elementwise_sequence(E2_, live[0].val)
+                if es is not None:
+                    src, v, el = es
+                    ok = src == chunk and v == ("call", "network::Network::predict", (("p", "self"), el))
+    ctx.check("R12.1", "predict_batch-per-input", ok, "predict_batch-inner", c.loc(fn), "every chunk maps to [predict(x) for x in chunk], in order")
 
 
 def r2(ctx):
